@@ -200,6 +200,23 @@ func templates() [][]*Node {
 	}
 }
 
+// bigTemplates: valid programs of well over a hundred lines (a long function, many declarations)
+func bigTemplates() [][]*Node {
+	long := []*Node{stm(idn("x"), opn(":="), lit("0"))}
+	for i := 0; i < 140; i++ {
+		long = append(long, stm(idn("x"), opn("+="), lit(strconv.Itoa(i))))
+	}
+	long = append(long, stm(grp("return", stm(idn("x")))))
+	decls := []*Node{}
+	for i := 0; i < 150; i++ {
+		decls = append(decls, stm(kwn("var"), idn("v"+strconv.Itoa(i)), opn("="), lit(strconv.Itoa(i))))
+	}
+	return [][]*Node{
+		{stm(kwn("func"), idn("long"), grp("params"), idn("int"), grp("block", long...))},
+		decls,
+	}
+}
+
 // damage applies one random mutation to a copy of the trees
 func damage(r *rand.Rand, t *SpecTable, body []*Node) []*Node {
 	out := []*Node{}
@@ -288,6 +305,34 @@ func ComposeDriverSeeded(tablePath string, n int, salt int64) [][]Action {
 		}
 		if r.Intn(5) == 0 {
 			h = append(h, Action{A: "Anon", P: "anon/p"})
+		}
+		if r.Intn(12) == 0 {
+			// a LONG program (no model comparison), valid or damaged - at a random place or at its very end (an error that
+			// the formatter reports in the last lines of a long source)
+			h[0].Light = true
+			big := bigTemplates()[r.Intn(2)]
+			trees := []*Node{}
+			for _, tr := range big {
+				trees = append(trees, cloneNode(tr))
+			}
+			switch r.Intn(3) {
+			case 1:
+				trees = damage(r, t, big)
+			case 2:
+				last := trees[len(trees)-1]
+				if len(last.Items) > 0 && last.Items[len(last.Items)-1].K == "grp" && r.Intn(2) == 0 {
+					g := last.Items[len(last.Items)-1]
+					g.Items = append(g.Items, stm(grp("if", stm(idn("x"))), opn("{"))) // a brace that is never closed, at the end of the last body
+				} else {
+					trees = append(trees, stm(kwn("func"), idn("tail"), grp("params"), opn("{")))
+				}
+			}
+			for _, tr := range trees {
+				h = append(h, Action{A: "Add", Tree: tr})
+			}
+			h = append(h, Action{A: "Render"})
+			out = append(out, h)
+			continue
 		}
 		switch r.Intn(3) {
 		case 0: // valid template
